@@ -162,6 +162,46 @@ class World:
         raise NotImplementedError
 
 
+def isolated(fn, *args):
+    """Run fn(*args) in a freshly forked child of this (pristine) process and
+    return its picklable result.  The parent imports the library but never
+    executes a library operation itself, so every run, every minimisation
+    candidate and every replay starts from the same library state: module-level
+    state that a (mutated) library keeps between calls cannot leak from one run
+    into the next, and a replay in a fresh interpreter sees what the run saw."""
+    import pickle
+    r, w = os.pipe()
+    pid = os.fork()
+    if pid == 0:
+        code = 0
+        try:
+            os.close(r)
+            try:
+                payload = ("ok", fn(*args))
+            except HarnessTimeout:
+                payload = ("timeout", None)
+            except BaseException as err:
+                payload = ("err", "%s: %s" % (type(err).__name__, err), traceback.format_exc())
+            with os.fdopen(w, "wb") as f:
+                pickle.dump(payload, f, protocol=pickle.HIGHEST_PROTOCOL)
+        except BaseException:
+            code = 1
+        finally:
+            os._exit(code)
+    os.close(w)
+    chunks = []
+    with os.fdopen(r, "rb") as f:
+        while True:
+            data = f.read(1 << 20)
+            if not data:
+                break
+            chunks.append(data)
+    os.waitpid(pid, 0)
+    if not chunks:
+        return ("err", "child died without a result", "")
+    return pickle.loads(b"".join(chunks))
+
+
 def execute(engine, prop, cfg, ops, log=None):
     """Re-execute an explicit op list in a fresh world.  Returns
     (world, violation or None, index of failing op or None)."""
@@ -225,12 +265,41 @@ def run_one(engine, prop, verif_seed, run_index, tier, cfg_override=None, keep_l
 # minimisation
 # ---------------------------------------------------------------------------
 
+class _V:
+    """picklable stand-in for a Violation coming back from an isolated execution"""
+    def __init__(self, kind, message, details):
+        self.kind, self.message, self.details = kind, message, details
+
+
+def _execute_plain(engine, prop, cfg, ops):
+    signal.signal(signal.SIGALRM, _alarm)
+    signal.setitimer(signal.ITIMER_REAL, _RUN_LIMIT_S)
+    _, v, k = execute(engine, prop, cfg, ops)
+    signal.setitimer(signal.ITIMER_REAL, 0)
+    if v is None:
+        return None
+    return (v.kind, v.message, _plain(v.details), k)
+
+
+def _plain(obj):
+    return json.loads(json.dumps(obj, default=str))
+
+
+def execute_isolated(engine, prop, cfg, ops):
+    """(violation or None, failing op index) of an explicit op list, in a fresh child."""
+    status, *rest = isolated(_execute_plain, engine, prop, cfg, ops)
+    if status != "ok":
+        raise HarnessError("isolated execution failed: %s" % (rest[0] if rest else status))
+    if rest[0] is None:
+        return None, None
+    kind, message, details, k = rest[0]
+    return _V(kind, message, details), k
+
+
 def _fails_same(engine, prop, cfg, ops, kind):
     try:
-        _, v, k = execute(engine, prop, cfg, ops)
-    except HarnessTimeout:
-        raise
-    except Exception:
+        v, k = execute_isolated(engine, prop, cfg, ops)
+    except HarnessError:
         return None
     if v is not None and v.kind == kind:
         return (v, k)
@@ -331,6 +400,15 @@ def _alarm(signum, frame):
     raise HarnessTimeout()
 
 
+def _run_one_child(engine, prop, verif_seed, idx, tier, cfg_override):
+    signal.signal(signal.SIGALRM, _alarm)
+    signal.setitimer(signal.ITIMER_REAL, _RUN_LIMIT_S)
+    try:
+        return run_one(engine, prop, verif_seed, idx, tier, cfg_override)
+    finally:
+        signal.setitimer(signal.ITIMER_REAL, 0)
+
+
 def _worker_chunk(args):
     engine_name, prop, verif_seed, indices, tier, cfg_override, do_min = args
     import importlib
@@ -338,26 +416,38 @@ def _worker_chunk(args):
     engine = importlib.import_module("sim.engines." + engine_name)
     out = []
     signal.signal(signal.SIGALRM, _alarm)
+    prepare = getattr(engine, "prepare", None)
+    if prepare:
+        prepare()
     for idx in indices:
-        signal.setitimer(signal.ITIMER_REAL, _RUN_LIMIT_S)
-        faulthandler.dump_traceback_later(_RUN_LIMIT_S + 30, exit=True)
+        # the child arms its own timer; this is the last resort if the child cannot be interrupted
+        faulthandler.dump_traceback_later(_RUN_LIMIT_S + 60, exit=True)
         t_run = time.time()
         try:
-            res = run_one(engine, prop, verif_seed, idx, tier, cfg_override)
-            res["wall"] = time.time() - t_run
-        except HarnessTimeout:
+            status, *rest = isolated(_run_one_child, engine, prop, verif_seed, idx, tier, cfg_override)
+        finally:
+            faulthandler.cancel_dump_traceback_later()
+        if status == "timeout":
             out.append({"run_index": idx, "harness": "HARNESS-TIMEOUT", "trace": ""})
             continue
-        except BaseException as err:      # harness bug: reported apart from VIOLATION
-            out.append({"run_index": idx, "harness": "HARNESS-ERROR %s: %s" % (
-                type(err).__name__, err), "trace": traceback.format_exc()})
+        if status != "ok":           # harness bug: reported apart from VIOLATION
+            out.append({"run_index": idx, "harness": "HARNESS-ERROR " + str(rest[0]),
+                        "trace": rest[1] if len(rest) > 1 else ""})
             continue
-        finally:
-            signal.setitimer(signal.ITIMER_REAL, 0)
-            faulthandler.cancel_dump_traceback_later()
-        if res["violation"] is not None and do_min and (
+        res = rest[0]
+        res["wall"] = time.time() - t_run
+        if res["violation"] is not None:
+            # a violation that already carries a listed finding's trigger and symptom is matched
+            # as it is; only the others are worth the (expensive) minimisation
+            fm = getattr(engine, "finding_matches", None)
+            res["pre_matched"] = None
+            for e in (load_known() if fm else []):
+                if e["status"] == "known" and e["property"] == res["violation"]["kind"].split(".")[0] \
+                        and fm(e["signature"], res["ops"], res["violation"]):
+                    res["pre_matched"] = e["id"]
+                    break
+        if res["violation"] is not None and not res.get("pre_matched") and do_min and (
                 do_min is True or res["violation"]["kind"].startswith(do_min)):
-            signal.setitimer(signal.ITIMER_REAL, _RUN_LIMIT_S)
             try:
                 ops, final, tried = minimise(
                     engine, prop, res["cfg"], res["ops"], res["violation"]["kind"])
@@ -374,8 +464,6 @@ def _worker_chunk(args):
             except Exception as err:
                 res["min_ops"] = None
                 res["min_error"] = "%s: %s" % (type(err).__name__, err)
-            finally:
-                signal.setitimer(signal.ITIMER_REAL, 0)
         out.append(res)
     return out
 
